@@ -3,6 +3,7 @@ import ast
 import signal as _signal
 
 from .common import *  # noqa: F401,F403
+from .common import reused_set_name
 from .common import Contract, Registry, LoopSpec, BASE_ENV, INIT, LINUX_PY, POSIX_PY
 from .frontproc import make_process, process_ctor_contract, kill_env, setter_env, observe
 from vc.interp import ModuleSrc, PS_EXC
@@ -42,7 +43,7 @@ HELPERS = {"verified": h_verified, "kills": h_kills, "calls": h_calls, "SIG": _s
 
 def base(it, cfg, **kw):
     o = make_process(it, **kw)
-    it.env_over["__init__._pids_reused"] = SymSet("Int", it.fresh("pids_reused", ("Array", "Int", "Bool")))
+    it.env_over["__init__." + reused_set_name()] = SymSet("Int", it.fresh("pids_reused", ("Array", "Int", "Bool")))
     it.env_over["os.kill"] = kill_env(it)
     it.ctx.ghost["pid"] = o.attrs["_pid"]
     it.ctx.ghost["last_obj_owner"] = None
@@ -218,6 +219,29 @@ COVERED_SITES = {("psutil/__init__.py", "Process._send_signal"), ("psutil/_pspos
                  ("psutil/_pswindows.py", "Process.send_signal")}
 
 
+def reached_only_from_covered(tree, rel, qual, depth=0):
+    """a private helper that holds the call and is called only from functions under contract (the engine executes an
+    uncontracted callee, so the contracts of its callers cover it)"""
+    short = qual.split(".")[-1]
+    if not short.startswith("_") or depth > 3:
+        return False
+    callers = set()
+
+    def walk(n, q):
+        for ch in ast.iter_child_nodes(n):
+            qq = q
+            if isinstance(ch, (ast.FunctionDef, ast.ClassDef)):
+                qq = (q + "." if q else "") + ch.name
+            if isinstance(ch, ast.Call) and ((isinstance(ch.func, ast.Attribute) and ch.func.attr == short) or
+                                             (isinstance(ch.func, ast.Name) and ch.func.id == short)) and q != qual:
+                callers.add(q)
+            if isinstance(ch, (ast.Attribute, ast.Name)) and not isinstance(getattr(ch, "ctx", None), ast.Store):
+                pass
+            walk(ch, qq)
+    walk(tree, "")
+    return bool(callers) and all((rel, c) in COVERED_SITES or reached_only_from_covered(tree, rel, c, depth + 1) for c in callers)
+
+
 def table_call_sites():
     import os
     out = []
@@ -238,7 +262,8 @@ def table_call_sites():
                     f = ast.unparse(ch.func)
                     if f in ("os.kill", "os.killpg", "os.waitpid", "signal.pthread_kill", "_waitpid"):
                         site = (rel, qual)
-                        ok = site in COVERED_SITES or (f in ("os.waitpid", "_waitpid") and qual.startswith("wait_pid"))
+                        ok = site in COVERED_SITES or (f in ("os.waitpid", "_waitpid") and qual.startswith("wait_pid")) \
+                            or reached_only_from_covered(tree, rel, qual)
                         out.append((f"call site {f} in {rel}:{qual} (line {ch.lineno}) is under contract", ok,
                                     "" if ok else "signal-delivering call site outside every contract", "coverage"))
                 walk(ch, q)
